@@ -728,7 +728,8 @@ func c16(c *core.Ctx, r *core.Report) {
 		st := c.Named(mpkg, "Metrics").Underlying().(*types.Struct)
 		for i := 0; i < st.NumFields(); i++ {
 			f := st.Field(i)
-			if !strings.HasSuffix(f.Type().String(), "prometheus.SummaryVec") {
+			// every metric vector the process keeps across runs (summaries, and histograms or counters added next to them)
+			if ts := f.Type().String(); !strings.Contains(ts, "prometheus.") || !strings.HasSuffix(ts, "Vec") {
 				continue
 			}
 			isResetOf := func(call ssa.CallInstruction, t *ssa.Function) bool {
@@ -795,14 +796,42 @@ func c16(c *core.Ctx, r *core.Report) {
 			}
 		}
 		r.Floor("recording obligations", n, 4)
+		// the vector an Observe goes to: the Metrics field behind `vec.WithLabelValues(…).Observe(…)`
+		vecOf := func(call ssa.CallInstruction) *types.Var {
+			src, ok := an.Strip(call.Common().Value).(*ssa.Call)
+			if !ok || len(src.Call.Args) == 0 {
+				return nil
+			}
+			fld, _ := an.TerminalField(src.Call.Args[0])
+			return fld
+		}
+		isSummary := func(f *types.Var) bool {
+			return f == nil || strings.HasSuffix(f.Type().String(), "prometheus.SummaryVec")
+		}
+		// the samples this property is about are those of the summary vectors; a further vector fed next to them
+		// (a histogram of the same durations) is judged on its own: at most one sample per call there too
 		isObserve := func(call ssa.CallInstruction, _ *ssa.Function) bool {
-			return call.Common().IsInvoke() && call.Common().Method.Name() == "Observe"
+			return call.Common().IsInvoke() && call.Common().Method.Name() == "Observe" && isSummary(vecOf(call))
 		}
 		for _, name := range []string{"Metrics.RecordIterationResult", "Metrics.RecordIterationStage"} {
 			fn := c.MustFn(mpkg, name)
 			// at most one sample on every path (through helpers) …
 			tot, ok := an.Total(an.PathCount(fn, an.CallWeight(isObserve, flatDepth)), false)
 			r.Check(ok && tot.Hi <= 1, name+"#at-most-one", c.Pos(fn.Pos()), "at most one Observe per call", name+" observes "+tot.String()+" samples per call")
+			others := map[string]bool{}
+			for _, e := range an.FlatCalls(fn, flatDepth, func(call ssa.CallInstruction, _ *ssa.Function) bool {
+				return call.Common().IsInvoke() && call.Common().Method.Name() == "Observe" && !isSummary(vecOf(call))
+			}) {
+				others[vecOf(e.Call()).Name()] = true
+			}
+			for vn := range others {
+				vn := vn
+				totO, okO := an.Total(an.PathCount(fn, an.CallWeight(func(call ssa.CallInstruction, _ *ssa.Function) bool {
+					f := vecOf(call)
+					return call.Common().IsInvoke() && call.Common().Method.Name() == "Observe" && f != nil && f.Name() == vn
+				}, flatDepth)), false)
+				r.Check(okO && totO.Hi <= 1, name+"#at-most-one:"+vn, c.Pos(fn.Pos()), "at most one sample per call in "+vn, name+" observes "+totO.String()+" samples per call in "+vn)
+			}
 			// … and the only condition under which it is not taken is the disabled flag
 			obs := an.FlatCalls(fn, flatDepth, isObserve)
 			r.Check(len(obs) == 1, name+"#observe-site", c.Pos(fn.Pos()), "one Observe site", sprintf("%d Observe sites under %s", len(obs), name))
